@@ -51,7 +51,9 @@ class Weird:
         return f"<Weird {self.v}>"
 
     def __eq__(self, other):
-        return isinstance(other, Weird) and self.v == other.v
+        if not isinstance(other, Weird):
+            return NotImplemented
+        return self.v == other.v
 
 
 SUPPORT_NS = {"P": P, "Q": Q, "A": A, "NT": NT, "Color": Color, "Perm": Perm, "Weird": Weird}
